@@ -573,6 +573,7 @@ type g struct {
 
 	coroarg *coro // argument during coroutine transfers
 	bubble  *synctestBubble
+	simNoYield bool // (sim) this goroutine never parks at a gate
 
 	// xRegs stores the extended register state if this G has been
 	// asynchronously preempted.
